@@ -283,7 +283,11 @@ def r14_6_nondeterminism(chk):
                     f"{'' if unset else ' on a path that does not say the attribute was unset'}", s.where)
     write = ix.get_method("DLISFile", "write")
     reach = set(chk.cg.reachable([write]))
-    for f in sorted(w.derived_returns, key=lambda x: x.short):
+    # (id() / hash() used for identity tests - `id(x) in ids` - yield specification-determined booleans: for values
+    # *returned* on the byte path only the genuinely external sources count; stores are judged with all sources)
+    w_ret = WritePathStores(ix, chk.cg, chk.terms, funcs, PER_WRITE_CLASSES, sources={},
+                            source_term=lambda t: nondet(t) and pp(t[1]) not in ("id", "hash"))
+    for f in sorted(w_ret.derived_returns, key=lambda x: x.short):
         direct = any(nondet(c) for c in chk.terms.summary(f).all_calls())
         chk.require(f not in reach, "R14.6", f"nondeterminism-on-byte-path:{f.short}",
                     f"{f.short}, reachable from DLISFile.write, returns a value taken from a nondeterminism source",
